@@ -549,6 +549,7 @@ def list_method(I, ref, r, name, args, kwargs):
         return VRef(run.alloc(r.copy()), "list")
     if name == "pop":
         I.fire("container_write", ref)
+        r.mem = None
         if r.concrete:
             if not r.items:
                 raise E.PyExc(VExc("IndexError"), "pop from empty list")
